@@ -22,7 +22,7 @@ import inspect
 import typing as tp
 
 from typelib import unmarshals
-from typelib.py import classes, compat, inspection
+from typelib.py import classes, compat, inspection, refs
 
 P = compat.ParamSpec("P")
 R = tp.TypeVar("R")
@@ -125,9 +125,15 @@ def _get_binding(obj: tp.Callable) -> AbstractBinding:
     max_pos: int | None = None
     varkwd: unmarshals.AbstractUnmarshaller | None = None
     varpos: unmarshals.AbstractUnmarshaller | None = None
+    module = getattr(obj, "__module__", None)
     for i, (name, param) in enumerate(params.items()):
+        annotation = param.annotation
+        # A postponed annotation (PEP 563) names a type in the module of the callable,
+        #   which is not necessarily the module we're called from.
+        if isinstance(annotation, str):
+            annotation = refs.forwardref(annotation, module=module)
         unmarshaller: unmarshals.AbstractUnmarshaller = unmarshals.unmarshaller(
-            param.annotation
+            annotation
         )
         binding[name] = binding[i] = unmarshaller
         has_kwd_only = has_kwd_only or param.kind == inspect.Parameter.KEYWORD_ONLY
